@@ -1096,7 +1096,9 @@ def parse(
 
         yesterday = _microseconds_since_epoch(timedelta(days=-1))
 
-        if always_update_last_hit or last_hit < yesterday:
+        # A table created by another tool can give last_hit another type affinity
+        # (e.g. TEXT); such a value cannot be compared, so it is simply refreshed.
+        if always_update_last_hit or not isinstance(last_hit, int) or last_hit < yesterday:
             cursor.execute("BEGIN TRANSACTION;")
             # Sometimes Windows time resolution is a bit coarse, so we make
             # sure that if we update the last_hit time, it is actually newer
